@@ -77,6 +77,7 @@ func main() {
 	extractGuards(pkgs, genDir)
 	extractLifecycles(pkgs, genDir)
 	extractReadyOrder(repo, genDir)
+	extractJournalWindow(pkgs, genDir)
 	sort.Slice(facts.Broken, func(i, j int) bool { return facts.Broken[i]["name"] < facts.Broken[j]["name"] })
 	b, _ := json.MarshalIndent(facts, "", " ")
 	if err := os.WriteFile(factsPath, b, 0o644); err != nil {
